@@ -20,17 +20,23 @@ var (
 	profC02 = sim.Profile{Name: "c02", Steps: 80, CanaryProb: 0.5, Hostile: 1.5, Churn: 1.5, Edits: 1.5, Holds: 0.7, Commands: 0.5, DupPods: 0.5, Affinity: -1, MaxNodes: 6, Converge: true, OldDS: 0.15}
 )
 
+func nested(p sim.Profile, prob float64) sim.Profile {
+	p.Name += "-n"
+	p.Nested = prob
+	return p
+}
+
 func registry() core.Registry {
 	return core.Registry{
-		"C01": one(&fn.C01{}, &sim.Sim{Prop: "C01", P: profC01, NQuick: 300, NThor: 6000, FloorsQ: map[string]int{}}),
+		"C01": one(&fn.C01{}, &sim.Sim{Prop: "C01", P: profC01, NQuick: 300, NThor: 6000, FloorsQ: map[string]int{}}, &sim.Sim{Prop: "C01", P: nested(profC01, 0.12), NQuick: 150, NThor: 3000, FloorsQ: map[string]int{}}),
 		"C02": one(&sim.Sim{Prop: "C02", P: profC02, NQuick: 200, NThor: 4000, FloorsQ: map[string]int{}}),
 		"C03": one(&fn.C03{}),
-		"C04": one(&sim.Sim{Prop: "C04", P: profC04, NQuick: 250, NThor: 5000, FloorsQ: map[string]int{}}),
+		"C04": one(&sim.Sim{Prop: "C04", P: profC04, NQuick: 250, NThor: 5000, FloorsQ: map[string]int{}}, &sim.Sim{Prop: "C04", P: nested(profC04, 0.12), NQuick: 150, NThor: 3000, FloorsQ: map[string]int{}}),
 		"C07": one(&sim.Sim{Prop: "C07", P: profC07, NQuick: 200, NThor: 3000, FloorsQ: map[string]int{}}),
-		"C08": one(&sim.Sim{Prop: "C08", P: profC08, NQuick: 250, NThor: 5000, FloorsQ: map[string]int{}}),
+		"C08": one(&sim.Sim{Prop: "C08", P: profC08, NQuick: 250, NThor: 5000, FloorsQ: map[string]int{}}, &sim.Sim{Prop: "C08", P: nested(profC08, 0.12), NQuick: 150, NThor: 3000, FloorsQ: map[string]int{}}),
 		"C11": one(&sim.C11{}),
-		"C12": one(&sim.Sim{Prop: "C12", P: profC12, NQuick: 200, NThor: 3000, FloorsQ: map[string]int{}}),
-		"C13": one(&sim.Sim{Prop: "C13", P: profC13, NQuick: 200, NThor: 3000, FloorsQ: map[string]int{}}),
+		"C12": one(&sim.Sim{Prop: "C12", P: profC12, NQuick: 200, NThor: 3000, FloorsQ: map[string]int{}}, &sim.Sim{Prop: "C12", P: nested(profC12, 0.12), NQuick: 100, NThor: 2000, FloorsQ: map[string]int{}}),
+		"C13": one(&sim.Sim{Prop: "C13", P: profC13, NQuick: 200, NThor: 3000, FloorsQ: map[string]int{}}, &sim.Sim{Prop: "C13", P: nested(profC13, 0.12), NQuick: 100, NThor: 2000, FloorsQ: map[string]int{}}),
 		"C05": one(&fn.C05{}),
 		"C06": one(&fn.C06{}),
 		"C09": one(&fn.C09{}, &sim.Sim{Prop: "C09", P: profC09, NQuick: 250, NThor: 4000, FloorsQ: map[string]int{}}),
